@@ -38,6 +38,9 @@ func c17(c *q.Ctx) {
 		c.ArgIs(ui, "Batch.Put", -1, "p2", 1, "in the caller's batch")
 		c.StoreIs(ui, "UtxoMeta.IrreversibleBlockHeight", "p1", 2, "the staged and the in-memory value are the requested height")
 		c.Gate(ui, "Batch.Put", q.ToFieldStore("UtxoMeta.IrreversibleBlockHeight"), q.Opt{K1Only: true})
+		// every successful call stages the row: "unchanged" cannot be decided against the staged copy (MetaTmp), which
+		// is ahead of the disk after a refused write - the retry would publish a height that was never persisted
+		c.Before(ui, q.ToCall("Batch.Put"), q.ToSuccess(), "a successful update has staged its row in the batch")
 	}
 	us := c.Fn(mt + "(*Meta).UpdateIrreversibleSlideWindow")
 	if us != nil {
